@@ -120,8 +120,17 @@ def tool_cases(tier, seed, work, tdir):
                         kind='tool-zck-refused', data_hex=data.hex() if len(data) < 70000 else None)
         r2 = subprocess.run([os.path.join(tdir, 'unzck'), '-c', z], capture_output=True, timeout=120)
         ok = r2.returncode == 0 and r2.stdout == data
+        # and into a regular file (unzck <file> writes ./<name without .zck>)
+        ud = os.path.join(work, 'unz'); os.makedirs(ud, exist_ok=True)
+        uo = os.path.join(ud, 'tool_in')
+        if os.path.exists(uo): os.unlink(uo)
+        r3 = subprocess.run([os.path.join(tdir, 'unzck'), z], capture_output=True, timeout=120, cwd=ud)
+        back = open(uo, 'rb').read() if os.path.exists(uo) else None
+        ok3 = r3.returncode == 0 and back == data
+        ok = ok and ok3
         return dict(op='%s zck %s' % (name, ' '.join(zargs)), ok=ok, kind='tool',
-                    detail='unzck exit %d, %d bytes back of %d' % (r2.returncode, len(r2.stdout), len(data)),
+                    detail='unzck -c exit %d, %d bytes back of %d; unzck to file exit %d, %s bytes' % (
+                        r2.returncode, len(r2.stdout), len(data), r3.returncode, 'no' if back is None else len(back)),
                     data_hex=data.hex() if not ok and len(data) < 70000 else None)
     blk = 32768
     # the split string at every alignment relative to a block edge, and as a (partial) suffix
@@ -151,6 +160,13 @@ def tool_cases(tier, seed, work, tdir):
         res.append(run_one('opts', data, zargs))
     for d in (b'', b'a'):
         res.append(run_one('tiny', d, []))
+    # contents with long runs of zero bytes: in the middle, as a tail that is not block aligned, as whole trailing 32 KiB blocks, all zeros
+    # (a tool that writes sparse output must still produce every byte)
+    txt = FG.text(rnd, 40000)
+    for name, d in (('zeros-middle', txt + bytes(70000) + txt), ('zero-tail', txt + bytes(60000)), ('zero-tail-aligned', FG.text(rnd, blk) + bytes(blk)),
+                    ('zero-tail-2blocks', FG.text(rnd, 100) + bytes(2 * blk + 5)), ('all-zero', bytes(50000)), ('all-zero-aligned', bytes(2 * blk))):
+        for zargs in ([], ['--compression-format', 'none'], ['-m']):
+            res.append(run_one(name, d, zargs))
     return res
 
 def post(recs, ctx):
